@@ -464,6 +464,11 @@ func genC05(c *Ctx) {
 		"LicenseRef-MIT+", "LicenseRef-MIT +", "LicenseRef-GPL-2.0-or-later", "LicenseRef-GPL-2.0-or-later+", "GPL-2.0-or-later++", "GPL-2.0-or-later +", "GPL-2.0++",
 		"GPL-2.0-only-only", "GPL-2.0-only-or-later", "GPL-2.0-or-later-only", "MIT-only+", "MIT-or-later-only", "LicenseRef-a_b", "LicenseRef-a b",
 		"MIT WITH AdditionRef-x", "AdditionRef-x", "MIT with Bison-exception-2.2", "MIT With Bison-exception-2.2", "mit AND isc", "MIT And ISC",
+		"MIT+ISC", "MIT+(ISC)", "MIT+ AND ISC", "MIT +ISC", "(MIT)ISC", "MIT(ISC)", "MIT )", "( MIT )", "(MIT )", "( MIT)", "MIT AND(ISC)", "MIT AND (ISC)OR Zlib",
+		"DocumentRef-a.:LicenseRef-b", "DocumentRef-a-:LicenseRef-b-", "DocumentRef-.:LicenseRef-.", "LicenseRef-a", "LicenseRef-.", "LicenseRef--", "LicenseRef-0", "DocumentRef-0:LicenseRef-0",
+		"LicenseRef-AND", "LicenseRef-WITH-x", "LicenseRef-OR", "DocumentRef-OR:LicenseRef-x", "DocumentRef-AND:LicenseRef-WITH", "LicenseRef-MIT AND LicenseRef-AND", "ANDAND", "FOOWITH", "MITOR", "MIT ORAND ISC",
+		"MIT WITH Bison-exception-2.2 WITH Bison-exception-2.2", "MIT+ WITH Bison-exception-2.2", "Apache-2.0+ WITH Bison-exception-2.2", "MIT WITH Bison-exception-2.2 ", "MIT WITH Bison-exception-2.2)", "(MIT WITH Bison-exception-2.2)",
+		"MIT  AND  ISC", "MIT AND  (ISC)", "MIT\tAND\tISC", "MIT \tAND ISC", "MIT AND\nISC", "MIT AND ISC\n", " MIT", "MIT ", "MIT  ", "\u00a0MIT AND ISC",
 		"\u212anuth-CTAN", "\u212aazlib", "Knuth-CTAN", "kazlib", "Ka\u017flib", "MIT\u017f", "\u017fleepycat", "Sleepycat", "M\u0130T", "M\u0131T", "\uff2d\uff29\uff34",
 		"CC-BY-SA-4.\u0660", "MIT\u200b", "MIT\u00ad", "\u00e9", "Apache-2.0\u2011or-later"} {
 		c.count("handmade_strings")
